@@ -448,6 +448,21 @@ func strayAmp(n *nd, isParams bool) bool {
 	return false
 }
 
+func symbolInHead(n *nd) bool {
+	if n.kids == nil {
+		return false
+	}
+	if !n.sq && len(n.kids) > 0 && n.kids[0].kids != nil && !n.kids[0].sq && len(n.kids[0].kids) > 0 && n.kids[0].kids[0].atom == "substitute" {
+		return true
+	}
+	for _, k := range n.kids {
+		if symbolInHead(k) {
+			return true
+		}
+	}
+	return false
+}
+
 func (sc *lzScen) emit(g *Gen, stream string, mutate bool) {
 	ts := sc.texts()
 	if mutate {
@@ -469,6 +484,13 @@ func (sc *lzScen) emit(g *Gen, stream string, mutate bool) {
 			for _, f := range t {
 				if strayAmp(f, false) {
 					g.Count("mal dropped (stray &)")
+					return
+				}
+				if symbolInHead(f) {
+					// ((substitute #x)): a symbol *value* in head position is resolved once more as a
+					// function name by ResolveCallable; symbols as values exist only as recovered source,
+					// calling one is outside the property and outside the modelled core
+					g.Count("mal dropped (recovered source in head position)")
 					return
 				}
 				if f.leaf() && (f.atom == "+" || f.atom == "-") {
@@ -541,7 +563,7 @@ func lzRandom(g *Gen, typed bool) *lzScen {
 	for tries := 0; ; tries++ {
 		sc.route = r.Intn(rRoutes)
 		if typed {
-			sc.route = []int{rDirect, rTail, rRec, rAlias, rWrapper, rTailShadowName}[r.Intn(6)]
+			sc.route = []int{rDirect, rTail, rRec, rAlias, rWrapper, rTailShadowName, rDirect, rWrapper, rApplyArr, rMapArr, rParam, rComputedFn}[r.Intn(12)]
 		}
 		if routeOK(sc.route, f, nargs) {
 			break
